@@ -52,6 +52,62 @@ fn judge(what: &str, e: &[u8], cap: usize, ok: bool, is_write: bool, pos: Option
     Ok(())
 }
 
+/// One value through every sink kind at one capacity. `e` is the reference encoding (Vec sink).
+fn sink_suite<V: minicbor::Encode<()>>(v: &V, e: &[u8], cap: usize, g: &mut Gen) -> CaseResult {
+    let n = e.len();
+    // 1. &mut [u8]
+    {
+        let mut gb = Guarded::new(cap);
+        let (ok, isw, rem) = { let mut s: &mut [u8] = gb.sink(); let r = minicbor::encode(v, &mut s); (r.is_ok(), r.as_ref().err().map(|x| x.is_write()).unwrap_or(false), s.len()) };
+        judge("&mut [u8]", e, cap, ok, isw, Some(cap - rem), gb.content(), gb.guards_intact())?;
+    }
+    // 2. Cursor<&mut [u8]>
+    {
+        let mut gb = Guarded::new(cap);
+        let (ok, isw, pos) = { let mut c = Cursor::new(gb.sink()); let r = minicbor::encode(v, &mut c); (r.is_ok(), r.as_ref().err().map(|x| x.is_write()).unwrap_or(false), c.position()) };
+        judge("Cursor<&mut [u8]>", e, cap, ok, isw, Some(pos), gb.content(), gb.guards_intact())?;
+    }
+    // 3. Cursor<Box<[u8]>>
+    {
+        let mut c = Cursor::new(vec![FILL; cap].into_boxed_slice());
+        let r = minicbor::encode(v, &mut c);
+        let pos = c.position();
+        judge("Cursor<Box<[u8]>>", e, cap, r.is_ok(), r.as_ref().err().map(|x| x.is_write()).unwrap_or(false), Some(pos), c.get_ref(), true)?;
+    }
+    // 4. Cursor<[u8; N]> for the N of the expanded set closest to the drawn capacity
+    {
+        let want = cap;
+        let nn = *ARRAY_CAPS.iter().min_by_key(|c| (**c as i64 - want as i64).abs()).unwrap();
+        macro_rules! arr { ($($n:literal)*) => { match nn { $($n => {
+            let mut c = Cursor::new([FILL; $n]);
+            let r = minicbor::encode(v, &mut c);
+            let pos = c.position();
+            judge(concat!("Cursor<[u8; ", stringify!($n), "]>"), e, $n, r.is_ok(), r.as_ref().err().map(|x| x.is_write()).unwrap_or(false), Some(pos), &c.get_ref()[..], true)?;
+        })* _ => unreachable!() } } }
+        arr!(0 1 2 3 4 5 6 7 8 9 10 11 12 16 17 23 24 25 32 33 40 64 128 256);
+    }
+    // 5. Vec<u8> (growable: always succeeds, same bytes)
+    {
+        let mut out = vec![0xeeu8; 3];
+        let r = minicbor::encode(v, &mut out);
+        ensure!(r.is_ok() && out[3 ..] == e[..] && out[.. 3] == [0xee; 3], "vec-sink", "Vec sink holds {} for encoding {}", short_hex(&out), short_hex(e));
+    }
+    // 6. std::io writer through the adapter, short writes of 1..7 bytes, total limit `cap`
+    {
+        let piece = 1 + g.below(7);
+        let mut w = Writer::new(Limited { data: Vec::new(), cap, piece });
+        let r = minicbor::encode(v, &mut w);
+        let data = &w.get_ref().data;
+        ensure!(data.len() <= cap, "overrun", "io writer accepted {} bytes with limit {}", data.len(), cap);
+        ensure!(e.starts_with(data), "not-a-prefix", "io writer received {} which is not a prefix of {}", short_hex(data), short_hex(e));
+        if n <= cap { ensure!(r.is_ok() && data.len() == n, "failed-although-fits", "Writer<io::Write> failed for a {}-byte encoding with limit {}", n, cap) }
+        else { match &r { Ok(()) => fail!("succeeded-without-room", "Writer<io::Write> reported success for {} bytes with limit {}", n, cap), Err(x) => ensure!(x.is_write(), "error-class", "io overflow reported as non-write error") } }
+    }
+    Ok(())
+}
+
+fn draw_cap(g: &mut Gen, n: usize) -> usize { match g.below(6) { 0 => n, 1 => n.saturating_sub(1), 2 => n + 1, 3 => 0, _ => g.below(n + 2) } }
+
 pub fn sinks<E: Entry>(g: &mut Gen, st: &mut Stats) -> CaseResult {
     scoped(E::NAME, || {
         st.eval();
@@ -60,60 +116,88 @@ pub fn sinks<E: Entry>(g: &mut Gen, st: &mut Stats) -> CaseResult {
         let e = match minicbor::to_vec(&v) { Ok(b) => b, Err(_) => return Ok(()) };
         let n = e.len();
         // capacity: around the length, or anywhere below it
-        let cap = match g.below(6) { 0 => n, 1 => n.saturating_sub(1), 2 => n + 1, 3 => 0, _ => g.below(n + 2) };
-        // 1. &mut [u8]
-        {
-            let mut gb = Guarded::new(cap);
-            let (ok, isw, rem) = { let mut s: &mut [u8] = gb.sink(); let r = minicbor::encode(&v, &mut s); (r.is_ok(), r.as_ref().err().map(|x| x.is_write()).unwrap_or(false), s.len()) };
-            judge("&mut [u8]", &e, cap, ok, isw, Some(cap - rem), gb.content(), gb.guards_intact())?;
-        }
-        // 2. Cursor<&mut [u8]>
-        {
-            let mut gb = Guarded::new(cap);
-            let (ok, isw, pos) = { let mut c = Cursor::new(gb.sink()); let r = minicbor::encode(&v, &mut c); (r.is_ok(), r.as_ref().err().map(|x| x.is_write()).unwrap_or(false), c.position()) };
-            judge("Cursor<&mut [u8]>", &e, cap, ok, isw, Some(pos), gb.content(), gb.guards_intact())?;
-        }
-        // 3. Cursor<Box<[u8]>>
-        {
-            let mut c = Cursor::new(vec![FILL; cap].into_boxed_slice());
-            let r = minicbor::encode(&v, &mut c);
-            let pos = c.position();
-            judge("Cursor<Box<[u8]>>", &e, cap, r.is_ok(), r.as_ref().err().map(|x| x.is_write()).unwrap_or(false), Some(pos), c.get_ref(), true)?;
-        }
-        // 4. Cursor<[u8; N]> for the N of the expanded set closest to the drawn capacity
-        {
-            let want = cap;
-            let nn = *ARRAY_CAPS.iter().min_by_key(|c| (**c as i64 - want as i64).abs()).unwrap();
-            macro_rules! arr { ($($n:literal)*) => { match nn { $($n => {
-                let mut c = Cursor::new([FILL; $n]);
-                let r = minicbor::encode(&v, &mut c);
-                let pos = c.position();
-                judge(concat!("Cursor<[u8; ", stringify!($n), "]>"), &e, $n, r.is_ok(), r.as_ref().err().map(|x| x.is_write()).unwrap_or(false), Some(pos), &c.get_ref()[..], true)?;
-            })* _ => unreachable!() } } }
-            arr!(0 1 2 3 4 5 6 7 8 9 10 11 12 16 17 23 24 25 32 33 40 64 128 256);
-        }
-        // 5. Vec<u8> (growable: always succeeds, same bytes)
-        {
-            let mut out = vec![0xeeu8; 3];
-            let r = minicbor::encode(&v, &mut out);
-            ensure!(r.is_ok() && out[3 ..] == e[..] && out[.. 3] == [0xee; 3], "vec-sink", "Vec sink holds {} for encoding {}", short_hex(&out), short_hex(&e));
-        }
-        // 6. std::io writer through the adapter, short writes of 1..7 bytes, total limit `cap`
-        {
-            let piece = 1 + g.below(7);
-            let mut w = Writer::new(Limited { data: Vec::new(), cap, piece });
-            let r = minicbor::encode(&v, &mut w);
-            let data = &w.get_ref().data;
-            ensure!(data.len() <= cap, "overrun", "io writer accepted {} bytes with limit {}", data.len(), cap);
-            ensure!(e.starts_with(data), "not-a-prefix", "io writer received {} which is not a prefix of {}", short_hex(data), short_hex(&e));
-            if n <= cap { ensure!(r.is_ok() && data.len() == n, "failed-although-fits", "Writer<io::Write> failed for a {}-byte encoding with limit {}", n, cap) }
-            else { match &r { Ok(()) => fail!("succeeded-without-room", "Writer<io::Write> reported success for {} bytes with limit {}", n, cap), Err(x) => ensure!(x.is_write(), "error-class", "io overflow reported as non-write error") } }
-        }
+        let cap = draw_cap(g, n);
+        sink_suite(&v, &e, cap, g)?;
         st.class(if n <= cap { "fits" } else if cap == 0 { "capacity-0" } else { "overflows" });
         if n >= 2 { st.nontrivial(crate::registry::stable_hash::<E>(&e) ^ (cap as u64).wrapping_mul(0x9e3779b97f4a7c15)) }
         st.sample(hash_of(&(cap, &e)), || format!("{}: {} bytes into capacity {}", E::NAME, n, cap));
         Ok(())
     })
+}
+
+/// A generated data item written through a generated choice of Encoder calls (definite or indefinite containers,
+/// chunked strings, typed integer methods, tags): "any balanced sequence of container calls" as an `Encode` value.
+/// The choices are a function of the node's position, so every replay issues the same calls.
+struct Replay { item: vcore::Item, salt: u64 }
+impl Replay {
+    fn go<W: Write>(&self, it: &vcore::Item, e: &mut minicbor::Encoder<W>, k: &mut u64) -> Result<(), minicbor::encode::Error<W::Error>> {
+        use vcore::Item;
+        *k = k.wrapping_mul(0x9E3779B97F4A7C15).wrapping_add(self.salt | 1);
+        let c = (*k >> 33) as usize;
+        match it {
+            Item::UInt(v, _) => { if c % 3 == 0 && *v <= u32::MAX as u64 { e.u32(*v as u32)?; } else if c % 3 == 1 { e.int(minicbor::data::Int::from(*v))?; } else { e.u64(*v)?; } }
+            Item::NInt(n, _) => { let m = -1 - *n as i128; if m >= i64::MIN as i128 && c % 2 == 0 { e.i64(m as i64)?; } else { e.int(minicbor::data::Int::try_from(m).unwrap())?; } }
+            Item::Bytes(b, _) => { if c % 4 == 0 { e.begin_bytes()?; let cut = c / 4 % (b.len() + 1); e.bytes(&b[.. cut])?; e.bytes(&b[cut ..])?; e.end()?; } else { e.bytes(b)?; } }
+            Item::BytesIndef(cs) => { e.begin_bytes()?; for (x, _) in cs { e.bytes(x)?; } e.end()?; }
+            Item::Text(t, _) => { if c % 2 == 0 { e.str(t)?; } else { e.encode(t.as_str())?; } }
+            Item::TextIndef(cs) => { e.begin_str()?; for (x, _) in cs { e.str(x)?; } e.end()?; }
+            Item::Array(xs, _) => { let indef = c % 2 == 0; if indef { e.begin_array()?; } else { e.array(xs.len() as u64)?; } for x in xs { self.go(x, e, k)? } if indef { e.end()?; } }
+            Item::Map(xs, _) => { let indef = c % 2 == 0; if indef { e.begin_map()?; } else { e.map(xs.len() as u64)?; } for (a, b) in xs { self.go(a, e, k)?; self.go(b, e, k)? } if indef { e.end()?; } }
+            Item::Tag(t, _, x) => { e.tag(minicbor::data::Tag::new(*t))?; self.go(x, e, k)? }
+            Item::Simple(n) => { e.simple(*n)?; }
+            Item::False => { e.bool(false)?; } Item::True => { e.bool(true)?; } Item::Null => { e.null()?; } Item::Undefined => { e.undefined()?; }
+            Item::F16(b) => { e.f16(vcore::half_ref::f16_bits_to_f64(*b) as f32)?; }
+            Item::F32(b) => { e.f32(f32::from_bits(*b))?; } Item::F64(b) => { e.f64(f64::from_bits(*b))?; }
+        }
+        Ok(())
+    }
+}
+impl<C> minicbor::Encode<C> for Replay {
+    fn encode<W: Write>(&self, e: &mut minicbor::Encoder<W>, _: &mut C) -> Result<(), minicbor::encode::Error<W::Error>> { let mut k = 0u64; self.go(&self.item, e, &mut k) }
+}
+
+/// An iterator that reports a chosen truthful `size_hint` (indefinite framing when inexact).
+#[derive(Clone)]
+struct Hinted<I> { it: I, low: usize, up: Option<usize> }
+impl<I: Iterator> Iterator for Hinted<I> { type Item = I::Item; fn next(&mut self) -> Option<I::Item> { self.it.next() } fn size_hint(&self) -> (usize, Option<usize>) { (self.low, self.up) } }
+
+/// Values that have an `Encode` impl but no `Decode` (and therefore no registry entry): `ArrayIter` / `MapIter` with
+/// exact and inexact hints, slices, `str`, references, `IanaTag`, token slices through `Encoder::tokens`, and generated
+/// Encoder call sequences - each into every sink kind.
+fn encode_only(g: &mut Gen, st: &mut Stats) -> CaseResult {
+    use minicbor::encode::{ArrayIter, MapIter};
+    st.eval();
+    let n = g.len(12).min(12);
+    let strs: Vec<String> = (0 .. n).map(|_| g.string(6)).collect();
+    let nums: Vec<u32> = (0 .. n).map(|_| g.u32()).collect();
+    let exact = g.bool();
+    let (low, up) = if exact { (n, Some(n)) } else if g.bool() { (0, None) } else { (g.below(n + 1), Some(n + 1 + g.below(3))) };
+    macro_rules! run { ($label:expr, $v:expr) => {{
+        let v = $v;
+        let e = minicbor::to_vec(&v).map_err(|x| vcore::Fail::new("encode", format!("{}: {}", $label, x)))?;
+        // (a tag alone is a head, not a complete item)
+        if $label != "IanaTag" { match vcore::item::wellformed(&e) { Ok(k) if k == e.len() => {}, other => fail!("ill-formed", "{} encodes as {} ({:?})", $label, short_hex(&e), other) } }
+        let cap = draw_cap(g, e.len());
+        scoped($label, || sink_suite(&v, &e, cap, g))?;
+        st.class($label);
+        if e.len() >= 2 { st.nontrivial(hash_of(&($label, cap, &e))) }
+        st.sample(hash_of(&(cap, &e)), || format!("{}: {} bytes into capacity {}", $label, e.len(), cap));
+    }}}
+    match g.below(9) {
+        0 => run!(if exact { "ArrayIter<String>/definite" } else { "ArrayIter<String>/indefinite" }, ArrayIter::new(Hinted { it: strs.iter(), low, up })),
+        1 => run!(if exact { "ArrayIter<u32>/definite" } else { "ArrayIter<u32>/indefinite" }, ArrayIter::new(Hinted { it: nums.iter(), low, up })),
+        2 => run!(if exact { "MapIter<u32,String>/definite" } else { "MapIter<u32,String>/indefinite" }, MapIter::new(Hinted { it: nums.iter().zip(strs.iter()), low, up })),
+        3 => run!("&[String]", &strs[..]),
+        4 => run!("&[(u32, &str)]", &nums.iter().zip(strs.iter().map(|s| s.as_str())).map(|(a, b)| (*a, b)).collect::<Vec<_>>()[..]),
+        5 => run!("&&str", &strs.first().map(|s| s.as_str()).unwrap_or("")),
+        6 => run!("IanaTag", *g.pick(&[minicbor::data::IanaTag::DateTime, minicbor::data::IanaTag::Cbor, minicbor::data::IanaTag::Uri, minicbor::data::IanaTag::TypedArrayF128L, minicbor::data::IanaTag::MultiDimArrayC])),
+        _ => {
+            let cfg = vcore::gen::ItemCfg { max_depth: 4, max_nodes: 16, wide: false, indef: true, tags: true, floats: true, simple: true, f16: true, max_str: 24 };
+            let item = vcore::gen::item(g, &cfg);
+            run!("encoder call sequence", Replay { item, salt: g.u64() })
+        }
+    }
+    Ok(())
 }
 
 macro_rules! sink_row { ($e:ident) => { sinks::<$e> as RandomFn } }
@@ -181,6 +265,8 @@ pub fn subs() -> Vec<Sub> {
     vec![
         Sub { prop: "C13", name: "values", rule: "value of a registry type x capacity in {len, len-1, len+1, 0, uniform 0..=len+1} x six sink kinds (slice, three cursors with canary-guarded backing, Vec, io::Write adapter with short writes): same bytes, Ok iff fits, write error otherwise, accepted prefix, cursor position, guards intact; distinct by (type, capacity, bytes)",
               kind: Kind::Random { quick: 1_000_000, thorough: 8_000_000, tape: 1024, f: values } },
+        Sub { prop: "C13", name: "encode-only", rule: "values without a Decode impl - ArrayIter / MapIter over iterators with exact and inexact size hints (definite and indefinite framing), slices, str references, IanaTag, and generated Encoder call sequences (containers definite or indefinite, chunked strings, tags, typed integer methods) replayed as one Encode value - into the same six sink kinds with the same oracle",
+              kind: Kind::Random { quick: 400_000, thorough: 4_000_000, tape: 1024, f: encode_only } },
         Sub { prop: "C13", name: "capacity-sweep", rule: "every capacity 0..=len+1 for a multi-field tuple value (encodings <= 80 bytes), slice and cursor sinks",
               kind: Kind::Random { quick: 30_000, thorough: 300_000, tape: 256, f: capacity_sweep } },
         Sub { prop: "C13", name: "raw-histories", rule: "1-10 raw write_all calls with lengths 0..=cap+1 on each cursor kind and the plain slice vs a (pos, all-or-nothing) model; non-trivial = history mixes accepted and refused writes",
